@@ -11,7 +11,9 @@ CHUNK = 30
 RULE = ('Each run: seeded plan of 1-4 concurrent channels (session/direct-'
         'tcpip, bytes/UTF-8 text, callback or stream readers, window 1..2M, '
         'max packet 1..32k, write programs of sizes 0..3 windows on '
-        'stdin/stdout/stderr, reader pause schedules) on a real asyncssh '
+        'stdin/stdout/stderr, optionally ending with EOF or with EOF and a '
+        'close() right behind it (the closing side then only has to have '
+        'received a prefix), reader pause schedules) on a real asyncssh '
         'client/server pair; the seeded scheduler decides segmentation, '
         'delivery order, reader resume and writer timing. Non-trivial = at '
         'least one non-empty write was delivered; distinct = distinct '
@@ -29,7 +31,7 @@ REAL = ['asyncssh connection/channel/session/stream code of both endpoints',
 STUB = ['event loop + clock', 'TCP sockets/listener', 'DNS', 'executor',
         'OS randomness (DRBG)']
 PROBES = ['reader_paused', 'short_reads', 'text_split_char', 'window_small',
-          'multi_channel', 'stderr_data', 'eof_sent']
+          'multi_channel', 'stderr_data', 'eof_sent', 'closed_behind_eof']
 
 
 def gen_plan(rng):
